@@ -359,6 +359,10 @@ def run(prog, rep, tier):
         'documentation (positions are squeezed to unit height for plotting)',
         'MultiSpeciesLattice / IrregularLattice / HelicalLattice derive their pairs at run time',
         'bijectivity of index maps and exactness of possible_couplings are NOT decided']
+    from ..flow import check_dead_computations
+    rep.rule('VALUE-dead', 'no result of a call is bound to a local that is never read (reaching '
+             'definitions)')
+    check_dead_computations(prog, rep, ['tenpy/models/lattice.py'])
     return rep.finish(
         level='other',
         explanation='Neighbour tables of %d (lattice, category) pairs checked against the '
